@@ -6,7 +6,7 @@ CONSTANTS
   SysMsgs <- R_Sys
   CallerScript <- R_CallerScript
   MsgScript <- R_MsgScript
-  ConsumerSeq <- Pool5
+  ConsumerSeq <- Pool4
   RecheckPaused = TRUE
 INVARIANT Emit
 CHECK_DEADLOCK FALSE
